@@ -3,6 +3,7 @@ package rig
 import (
 	"context"
 	"fmt"
+	"runtime"
 	"sync"
 	"sync/atomic"
 
@@ -152,7 +153,13 @@ func NewFixture() *Fixture {
 	sig := schema.NewCallableStepWithSignals[*sigData, map[string]any]("sig", echoInputScope(), echoOutputs(),
 		map[string]schema.CallableSignal{"record": record},
 		map[string]*schema.SignalSchema{"progress": emitted}, nil,
-		func() *sigData { return &sigData{id: f.inits.Add(1)} },
+		func() *sigData {
+			// plugin code may take its time: yielding here is what a slow initialiser looks like to the scheduler
+			for i := 0; i < 40; i++ {
+				runtime.Gosched()
+			}
+			return &sigData{id: f.inits.Add(1)}
+		},
 		func(_ context.Context, d *sigData, in map[string]any) (string, any) {
 			id, out := f.echoBehaviour("sig", d.id, in)
 			if m, ok := out.(map[string]any); ok && id == "success" {
